@@ -8,7 +8,7 @@ RULE = (
     "case = start network (constructor input: none / edge list / edge dict / 2-column DataFrame / incidence "
     "matrix / another Hypergraph) + up to 30 (thorough 50) ops over the full Hypergraph mutator alphabet incl. "
     "in-place cleanup / merge / relabel / largest-component, None and empty members, explicit, automatic, "
-    "existing and missing IDs, explicit IDs at / just above the automatic counter as int, integer-valued float and numpy int, copies of existing edges; the integrity predicate runs after every op whether it returned or raised. "
+    "existing and missing IDs, explicit IDs at / just above the automatic counter as int, integer-valued float and numpy int, IDs that existed earlier in the history and vanished, copies of existing edges, a 3-label kind that makes duplicate edges common, start states on which a merge has already run; the integrity predicate runs after every op whether it returned or raised. "
     "non-trivial = history has >=1 edge-creating and >=1 removing/rewiring/merging op, or a call raised while "
     "the network had >=1 edge; distinct = distinct canonical JSON of the case"
 )
